@@ -245,12 +245,15 @@ def warm(pf=True, dc=False, opf=False, sc=False):
 # known findings
 # ----------------------------------------------------------------------------------------------
 def load_findings(prop):
-    path = os.path.join(VERIF, "known_findings.json")
-    if not os.path.exists(path):
-        return []
-    with open(path) as f:
-        data = json.load(f)
-    return [e for e in data.get("findings", []) if e.get("property") == prop]
+    import glob
+    out = []
+    for path in [os.path.join(VERIF, "known_findings.json")] + sorted(glob.glob(os.path.join(VERIF, "known_findings.d", "*.json"))):
+        if not os.path.exists(path):
+            continue
+        with open(path) as f:
+            data = json.load(f)
+        out += [e for e in data.get("findings", []) if e.get("property") == prop]
+    return out
 
 
 def match_finding(v, findings):
